@@ -125,6 +125,30 @@ def clique_taint(ctx, rule="C19.clique"):
                 ast.unparse(rm[0].args[0])[:-3] == ast.unparse(adds[0].args[0])[:-3]
             ctx.ob(rule, f.site, ok, "" if ok else "swap does not remove the clique member and add the outside node of the "
                    "same (member, outsider) pair", role="swap-pair", line=f.node.lineno)
+    # swap ranks the candidates by the OUTSIDE node of each (member, outsider) pair - the node that is added
+    sw = ctx.tree.func(CLQ, "swap")
+    adds = [n for n in walk_no_nested(sw.node) if isinstance(n, ast.Call) and dotted(n.func) == "clique.add" and n.args]
+    added_k = None
+    if adds and isinstance(adds[0].args[0], ast.Subscript) and isinstance(adds[0].args[0].slice, ast.Constant):
+        added_k = adds[0].args[0].slice.value
+    comps = [n for n in walk_no_nested(sw.node) if isinstance(n, ast.ListComp) and dotted(n.generators[0].iter) == "_c_1"]
+    ctx.require(added_k is not None and len(comps) >= 2, "swap: candidate ranking comprehensions over _c_1 not found")
+    for i, comp in enumerate(comps):
+        tgt = comp.generators[0].target
+        used = None
+        if isinstance(tgt, ast.Name):
+            ks = {x.slice.value for x in ast.walk(comp.elt) if isinstance(x, ast.Subscript) and dotted(x.value) == tgt.id
+                  and isinstance(x.slice, ast.Constant)}
+            used = ks.pop() if len(ks) == 1 else None
+        elif isinstance(tgt, ast.Tuple):
+            names = [e.id if isinstance(e, ast.Name) else None for e in tgt.elts]
+            reads = {x.id for x in ast.walk(comp.elt) if isinstance(x, ast.Name)}
+            ks = [j for j, nm in enumerate(names) if nm in reads and nm != "_"]
+            used = ks[0] if len(ks) == 1 else None
+        ok = used == added_k
+        ctx.ob(rule, sw.site, ok, "" if ok else f"`{ast.unparse(comp)[:50]}` ranks the candidates by component {used} of the "
+               f"(member, outsider) pairs, but component {added_k} is the node that is added", role=f"rank-component{i}",
+               line=comp.lineno)
     c0 = ctx.tree.func(CLQ, "c_0")
     ok = any(isinstance(n, ast.Call) and dotted(n.func) == "clique.issubset" and n.args and
              "neighbors" in ast.unparse(n.args[0]) for n in walk_no_nested(c0.node))
@@ -141,7 +165,7 @@ def clique_taint(ctx, rule="C19.clique"):
         txt = ast.unparse(rets[0].value).replace(" ", "")
         ok = ok and ("*(nodes-1)/2" in txt or "*(nodes-1)//2" in txt)
     ctx.ob(rule, ic.site, ok, "" if ok else "is_clique is not `number of edges == n (n - 1) / 2`", role="is-clique", line=ic.node.lineno)
-    ctx.floor(rule, 11)
+    ctx.floor(rule, 13)
 
 
 def order(ctx, rule="C19.set-order"):
@@ -158,6 +182,15 @@ def order(ctx, rule="C19.set-order"):
             ok = False
     ctx.ob(rule, f.site, ok, "" if ok else "to_subgraphs builds node lists with list(set(...)): hash order (e.g. [8, 1])",
            role="sorted-nodes", line=f.node.lineno)
+    # relabelling is positional (graph_nodes[i]): it may be skipped only when the node list IS 0..n-1 in order
+    guards = [n for n in walk_no_nested(f.node) if isinstance(n, ast.If) and "range(" in ast.unparse(n.test)]
+    ctx.require(guards, "to_subgraphs: relabelling guard not found")
+    t = guards[0].test
+    ok = isinstance(t, ast.Compare) and isinstance(t.ops[0], (ast.NotEq, ast.Eq)) and \
+        not any(isinstance(c, ast.Call) and dotted(c.func) in ("set", "frozenset", "sorted") for c in ast.walk(t))
+    ctx.ob(rule, f.site, ok, "" if ok else f"`{ast.unparse(t)[:60]}` compares node labels as sets: a graph with labels 0..n-1 in "
+           "another iteration order skips the positional relabelling and gets wrong nodes", role="relabel-guard-ordered",
+           line=guards[0].lineno)
     g = ctx.tree.func(SMP, "modes_from_counts")
     rets = [n for n in walk_no_nested(g.node) if isinstance(n, ast.Return) and n.value is not None]
     ok = bool(rets) and all(derives(g.node, r.value).has_call("sorted") for r in rets)
